@@ -302,3 +302,90 @@ M('C04-twin-boundary-earlier-form', 'C04', BASIC,
   expect='silent')
 M('C04-twin-boundary-moved-within-snapshots', 'C04', BASIC, "context.protocol_later_eq(443)",
   "context.protocol_later_eq(441)", count=2, expect='silent')
+
+# ---------------------------------------------------------------- C05
+M('C05-faceplayer-drop-origin', 'C05', FACE,
+  "            VarInt.send(self.origin, packet_buffer)\n", "", rule='R05.3')
+M('C05-faceplayer-flag-inverted', 'C05', FACE,
+  "            if self.entity_id is not None:\n                Boolean.send(True, packet_buffer)\n                VarInt.send(self.entity_id, packet_buffer)\n                VarInt.send(self.entity_origin, packet_buffer)\n            else:\n                Boolean.send(False, packet_buffer)",
+  "            if self.entity_id is not None:\n                Boolean.send(False, packet_buffer)\n                VarInt.send(self.entity_id, packet_buffer)\n                VarInt.send(self.entity_origin, packet_buffer)\n            else:\n                Boolean.send(True, packet_buffer)",
+  rule='R05.3')
+M('C05-faceplayer-none-sent', 'C05', FACE,
+  "        else:  # Protocol version 352\n            if self.entity_id is not None:\n                Boolean.send(True, packet_buffer)",
+  "        else:  # Protocol version 352\n            if self.entity_id is None:\n                Boolean.send(True, packet_buffer)")
+M('C05-spawnobject-pitch-yaw-swapped', 'C05', SPAWN,
+  "        for coord in self.pitch, self.yaw:\n            Angle.send(coord, packet_buffer)",
+  "        for coord in self.yaw, self.pitch:\n            Angle.send(coord, packet_buffer)", rule='R05.3')
+M('C05-spawnobject-boundary-one-side', 'C05', SPAWN,
+  "        if self.context.protocol_later_eq(458):\n            VarInt.send(self.type_id, packet_buffer)",
+  "        if self.context.protocol_later_eq(459):\n            VarInt.send(self.type_id, packet_buffer)", rule='R05.3')
+M('C05-playerproperty-omit-flag', 'C05', PLIST,
+  "            else:\n                Boolean.send(False, packet_buffer)\n\n    class Action(MutableRecord):",
+  "            else:\n                pass\n\n    class Action(MutableRecord):", rule='R05.3')
+M('C05-addplayer-ping-gamemode-swapped', 'C05', PLIST,
+  "            VarInt.send(self.gamemode, packet_buffer)\n            VarInt.send(self.ping, packet_buffer)\n            if self.display_name is not None:",
+  "            VarInt.send(self.ping, packet_buffer)\n            VarInt.send(self.gamemode, packet_buffer)\n            if self.display_name is not None:",
+  rule='R05.3')
+M('C05-action-uuid-dropped', 'C05', PLIST,
+  "            UUID.send(self.uuid, packet_buffer)\n            self._send(packet_buffer)",
+  "            self._send(packet_buffer)", rule='R05.3')
+M('C05-combat-enddata-order', 'C05', COMBAT,
+  "            VarInt.send(self.duration, packet_buffer)\n            Integer.send(self.entity_id, packet_buffer)",
+  "            Integer.send(self.entity_id, packet_buffer)\n            VarInt.send(self.duration, packet_buffer)", rule='R05.3')
+M('C05-pluginresponse-flag', 'C05', SB_LOGIN,
+  "        Boolean.send(successful, packet_buffer)\n        if successful:",
+  "        Boolean.send(successful, packet_buffer)\n        if not successful:", rule='R05.3')
+M('C05-duplicate-field-name', 'C05', CB_PLAY,
+  "        {'velocity_y': Short},\n        {'velocity_z': Short}", "        {'velocity_y': Short},\n        {'velocity_y': Short}",
+  rule='R05.2')
+M('C05-trailing-not-last', 'C05', CB_LOGIN,
+  "        {'message_id': VarInt},\n        {'channel': String},\n        {'data': TrailingByteArray}]",
+  "        {'message_id': VarInt},\n        {'data': TrailingByteArray},\n        {'channel': String}]", rule='R05.2')
+M('C05-definition-not-a-type', 'C05', CB_PLAY,
+  "        {'health': Float},\n        {'food': VarInt},", "        {'health': Float},\n        {'food': int},", rule='R05.2')
+M('C05-rebreak-D5-islocked', 'C05', MAP,
+  "        if self.context.protocol_later_eq(452):\n            Boolean.send(self.is_locked, packet_buffer)\n\n", "",
+  rule='R05.3')
+M('C05-rebreak-D5-offset', 'C05', MAP, "            Byte.send(self.offset[0], packet_buffer)  # x",
+  "            UnsignedByte.send(self.offset[0], packet_buffer)  # x", rule='R05.3')
+M('C05-map-offsets-swapped', 'C05', MAP,
+  "            Byte.send(self.offset[0], packet_buffer)  # x\n            Byte.send(self.offset[1], packet_buffer)  # z",
+  "            Byte.send(self.offset[1], packet_buffer)  # x\n            Byte.send(self.offset[0], packet_buffer)  # z",
+  rule='R05.3')
+M('C05-map-icon-loop-dropped-name', 'C05', MAP,
+  "                if icon.display_name is not None:\n                    String.send(icon.display_name, packet_buffer)\n", "",
+  rule='R05.3')
+M('C05-generic-write-wrong-attr', 'C05', PACKET,
+  "                data = getattr(self, var_name)\n                data_type.send_with_context(data, packet_buffer, self.context)",
+  "                data = getattr(self, 'id')\n                data_type.send_with_context(data, packet_buffer, self.context)",
+  rule='R05.1')
+M('C05-generic-read-no-context', 'C05', PACKET,
+  "value = data_type.read_with_context(file_object, self.context)",
+  "value = data_type.read_with_context(file_object, None)", rule='R05.1')
+M('C05-write-id-after-fields', 'C05', PACKET,
+  "        VarInt.send(self.id, packet_buffer)\n        # write every individual field\n        self.write_fields(packet_buffer)",
+  "        # write every individual field\n        self.write_fields(packet_buffer)\n        VarInt.send(self.id, packet_buffer)",
+  rule='R05.4')
+M('C05-explosion-record-two-bytes', 'C05', EXPL,
+  "return cls(*(Byte.read(file_object) for i in range(3)))", "return cls(*(Byte.read(file_object) for i in range(2)), 0)",
+  rule='R05.3')
+M('C05-pitch-boundary-one-side', 'C05', SOUND,
+  "            if context.protocol_later_eq(201):\n                Float.send(value, socket)",
+  "            if context.protocol_later_eq(204):\n                Float.send(value, socket)", rule='R05.3', tier='thorough')
+M('C05-field-enum-signature', 'C05', SB_PLAY,
+  "    field_enum = classmethod(\n        lambda cls, field, context: cls if field == 'action_id' else None)",
+  "    field_enum = classmethod(\n        lambda cls, field: cls if field == 'action_id' else None)", rule='R05.5')
+M('C05-twin-rename-loopvar', 'C05', SPAWN,
+  "        for coord in self.pitch, self.yaw:\n            Angle.send(coord, packet_buffer)",
+  "        for angle in self.pitch, self.yaw:\n            Angle.send(angle, packet_buffer)", expect='silent')
+M('C05-twin-helper-method', 'C05', FACE,
+  "            VarInt.send(self.origin, packet_buffer)\n            Double.send(self.x, packet_buffer)\n            Double.send(self.y, packet_buffer)\n            Double.send(self.z, packet_buffer)\n            if self.entity_id is not None:\n                Boolean.send(True, packet_buffer)\n                VarInt.send(self.entity_id, packet_buffer)\n                VarInt.send(self.entity_origin, packet_buffer)",
+  "            VarInt.send(self.origin, packet_buffer)\n            self._write_target(packet_buffer)\n            if self.entity_id is not None:\n                Boolean.send(True, packet_buffer)\n                VarInt.send(self.entity_id, packet_buffer)\n                VarInt.send(self.entity_origin, packet_buffer)",
+  expect='silent',
+  edits=[dict(file=FACE, find="            VarInt.send(self.origin, packet_buffer)\n            Double.send(self.x, packet_buffer)\n            Double.send(self.y, packet_buffer)\n            Double.send(self.z, packet_buffer)\n            if self.entity_id is not None:\n                Boolean.send(True, packet_buffer)\n                VarInt.send(self.entity_id, packet_buffer)\n                VarInt.send(self.entity_origin, packet_buffer)",
+               repl="            VarInt.send(self.origin, packet_buffer)\n            self._write_target(packet_buffer)\n            if self.entity_id is not None:\n                Boolean.send(True, packet_buffer)\n                VarInt.send(self.entity_id, packet_buffer)\n                VarInt.send(self.entity_origin, packet_buffer)"),
+         dict(file=FACE, find="    # These aliases declare the Enum type corresponding to each field:\n    Origin = OriginPoint",
+              repl="    def _write_target(self, packet_buffer):\n        Double.send(self.x, packet_buffer)\n        Double.send(self.y, packet_buffer)\n        Double.send(self.z, packet_buffer)\n\n    # These aliases declare the Enum type corresponding to each field:\n    Origin = OriginPoint")])
+M('C05-twin-reader-accepts-more', 'C05', SB_LOGIN,
+  "        if self.successful:\n            self.data = TrailingByteArray.read(file_object)\n        else:\n            self.data = None",
+  "        self.data = TrailingByteArray.read(file_object)", expect='silent')
